@@ -126,12 +126,16 @@ def gen_reindex_fail(rnd):
             "subscribe_first": False, "profile": "reindexfail", "ample": False}
 
 
-def gen_near_equal_loans(rnd):
+def gen_near_equal_loans(rnd, equal=False):
     """Two open loans in the symbol an auto-repay order acquires, with nearly equal principals -- the smaller one older,
     so that its interest is larger -- and funds for only one of them when the order is cancelled."""
     a = rnd.choice([F(1), F(2), F(1, 2)])
-    delta = rnd.choice([F(1, 100), F(2, 100), F(5, 100)])
+    delta = F(0) if equal else rnd.choice([F(1, 100), F(2, 100), F(5, 100)])
     vol = rnd.choice(["2", "4", "1"])
+    if equal:
+        # funds for exactly one of the two equal loans when the order is cancelled
+        a = rnd.choice([F(1), F(2)])
+        vol = rnd.choice(["1", "2"])
     bars = [[0, 60 * (k + 1), "100.00", "100.00", "100.00", "100.00", vol] for k in range(8)]
     script = {"0": [["loan", "BTC", dec(a, 2)]],
               "1": [["create", "limit", "buy", 0, "5.00", "100.00", None, False, True]],
@@ -145,9 +149,36 @@ def gen_near_equal_loans(rnd):
             "subscribe_first": False, "profile": "nearequal", "ample": False}
 
 
+def gen_zero_req(rnd):
+    """Per-symbol lending conditions where one symbol needs no margin: the account goes under water on the other symbol's
+    debt (the price moves), then borrows the symbol without requirement -- explicitly or through an order."""
+    px = rnd.choice([100, 50])
+    up = rnd.choice([3, 4, 5])
+    bars = [[0, 60, dec(px, 2), dec(px, 2), dec(px, 2), dec(px, 2), "1000"],
+            [0, 120, dec(px, 2), dec(px * up, 2), dec(px, 2), dec(px * up, 2), "1000"],
+            [0, 180, dec(px * up, 2), dec(px * up, 2), dec(px * up, 2), dec(px * up, 2), "1000"],
+            [0, 240, dec(px * up, 2), dec(px * up, 2), dec(px * up, 2), dec(px * up, 2), "1000"]]
+    req = rnd.choice(["0.5", "0.4", "1"])
+    n_btc = rnd.choice([10, 8, 15])
+    second = rnd.choice([["loan", "USD", dec(rnd.choice([500, 1000, 50]), 2)],
+                         ["create", "market", "buy", 0, dec(rnd.choice([1, 2]), 2), None, None, True, False],
+                         ["create", "limit", "buy", 0, dec(1, 2), dec(px * up, 2), None, True, False]])
+    script = {"0": [["loan", "BTC", dec(n_btc, 2)]], str(rnd.choice([1, 2])): [second]}
+    return {"syms": ["BTC", "USD"], "pairs": [["BTC", "USD"]], "sym_prec": {"BTC": 2, "USD": 2}, "pair_info": {},
+            "default_pair": None, "fee": None, "liq": None,
+            "lend": {"quote": "USD", "default": None,
+                     "conds": {"BTC": ["BTC", "0", 0, "0", req], "USD": ["USD", "0", 0, "0", "0"]}},
+            "initial": {"BTC": "0.00", "USD": dec(rnd.choice([1000, 600, 2000]), 2)}, "bars": bars, "script": script,
+            "subscribe_first": False, "profile": "zeroreq", "ample": False}
+
+
 def gen_case(rnd, profile="mixed", size="small"):
+    if profile == "zeroreq":
+        return gen_zero_req(rnd)
     if profile == "nearequal":
         return gen_near_equal_loans(rnd)
+    if profile == "equalloans":
+        return gen_near_equal_loans(rnd, equal=True)
     if profile == "reindexfail":
         return gen_reindex_fail(rnd)
     if profile == "cancelrepay":
